@@ -90,6 +90,39 @@ theorem put32_eq_spec (b : List Byte) (v : BitVec 32) : uint32Put b v = specPut 
 theorem get32_eq_spec (b : List Byte) : uint32Get b = specGet 32 4 b :=
   get32_eq_spec' b
 
+/-! ### the layout read as arithmetic, and across widths
+
+Round-trips are insensitive to the byte order; these statements are not: they fix WHICH byte carries which
+power of 256, in the form the GooseLang model (`u64_le`) and any reader in another language use. -/
+
+/-- The value read from 8 bytes is Σ byteᵢ · 256ⁱ. -/
+theorem get64_is_base256 (b0 b1 b2 b3 b4 b5 b6 b7 : Byte) (rest : List Byte) :
+    ∃ v, uint64Get (b0 :: b1 :: b2 :: b3 :: b4 :: b5 :: b6 :: b7 :: rest) = .ok v ∧
+      v.toNat = b0.toNat + 256 * (b1.toNat + 256 * (b2.toNat + 256 * (b3.toNat + 256 * (b4.toNat +
+        256 * (b5.toNat + 256 * (b6.toNat + 256 * b7.toNat)))))) :=
+  get64_toNat b0 b1 b2 b3 b4 b5 b6 b7 rest
+
+theorem get32_is_base256 (b0 b1 b2 b3 : Byte) (rest : List Byte) :
+    ∃ v, uint32Get (b0 :: b1 :: b2 :: b3 :: rest) = .ok v ∧
+      v.toNat = b0.toNat + 256 * (b1.toNat + 256 * (b2.toNat + 256 * b3.toNat)) :=
+  get32_toNat b0 b1 b2 b3 rest
+
+/-- Byte i written by Put (both widths: `put64_layout`, `put32_layout` name it `specByte v i`) is digit i of the
+value in base 256. -/
+theorem put_byte_is_digit {w : Nat} (v : BitVec w) (i : Nat) :
+    (specByte v i).toNat = v.toNat / 256 ^ i % 256 :=
+  specByte_toNat v i
+
+/-- Low half first: what UInt64Put wrote, UInt32Get reads back as the value modulo 2^32. -/
+theorem get32_of_put64 (b : List Byte) (v : BitVec 64) (h : 8 ≤ b.length) :
+    ∃ b', uint64Put b v = .ok b' ∧ uint32Get b' = .ok (v.setWidth 32) :=
+  get32_of_put64' b v h
+
+/-- A small value still overwrites the whole frame: bytes 4…7 become zero whatever they held. -/
+theorem put64_small_clears_high (b : List Byte) (v : BitVec 64) (h : 8 ≤ b.length) (hv : v.toNat < 2 ^ 32) :
+    ∃ b', uint64Put b v = .ok b' ∧ ∀ i, 4 ≤ i → i < 8 → b'[i]? = some 0 :=
+  put64_small' b v h hv
+
 /-! ### non-vacuity: concrete buffers meeting the hypotheses, with the expected bytes -/
 
 example : uint64Put [0xAA, 0xBB, 0xCC, 0xDD, 0xEE, 0xFF, 0x11, 0x22, 0x33] 0x0102030405060708#64
@@ -97,5 +130,7 @@ example : uint64Put [0xAA, 0xBB, 0xCC, 0xDD, 0xEE, 0xFF, 0x11, 0x22, 0x33] 0x010
 example : uint64Get [0x08, 0x07, 0x06, 0x05, 0x04, 0x03, 0x02, 0x01, 0x33] = .ok 0x0102030405060708#64 := by decide
 example : uint32Put [0xAA, 0xBB, 0xCC, 0xDD, 0xEE] 0xDEADBEEF#32 = .ok [0xEF, 0xBE, 0xAD, 0xDE, 0xEE] := by decide
 example : uint64Put [1, 2, 3, 4, 5, 6, 7] 1#64 = .panic := by decide
+example : uint64Put [0xFF, 0xFF, 0xFF, 0xFF, 0xFF, 0xFF, 0xFF, 0xFF, 0x33] 7#64 = .ok [7, 0, 0, 0, 0, 0, 0, 0, 0x33] := by decide
+example : uint32Get [0x08, 0x07, 0x06, 0x05, 0x04, 0x03, 0x02, 0x01] = .ok 0x05060708#32 := by decide
 
 end GooseVerif.Props.C15
